@@ -4,6 +4,7 @@ import dataclasses
 import logging
 from copy import deepcopy
 from itertools import zip_longest
+from pathlib import Path
 from types import NoneType
 from typing import TYPE_CHECKING
 
@@ -72,7 +73,7 @@ class MyPyAstVisitor:
 
     def enter_moduledef(self, node: mp_nodes.MypyFile) -> None:
         self.mypy_file = node
-        is_package = node.path.endswith("__init__.py")
+        is_package = Path(node.path).name == "__init__.py"
 
         qualified_imports: list[QualifiedImport] = []
         wildcard_imports: list[WildcardImport] = []
@@ -862,7 +863,8 @@ class MyPyAstVisitor:
         docstring = self.docstring_parser.get_attribute_documentation(parent.id, name)
 
         # Remove __init__ for attribute ids
-        id_ = self._create_id_from_stack(name).replace("__init__/", "")
+        # (only the constructor itself, not a class whose name merely ends in "__init__")
+        id_ = "/".join(part for part in self._create_id_from_stack(name).split("/") if part != "__init__")
 
         return Attribute(
             id=id_,
